@@ -835,4 +835,89 @@ theorem clipStep_sides (b : Aabb3 K) (o d : V3 K) (st st' : ClipState K) (i : Fi
 
 end sides
 
+
+section replay
+variable (sq : K → K)
+set_option linter.style.haveILetI false
+set_option linter.unnecessarySeqFocus false
+
+/-! ## replaying the cut sequence of `difference_with_cut_sequence` -/
+
+/-- axis named by a cut index `±1, ±2, ±3` -/
+def cutAxis (n : Int) : Option (Fin 3) :=
+  if n = 1 ∨ n = -1 then some 0 else if n = 2 ∨ n = -2 then some 1 else if n = 3 ∨ n = -3 then some 2 else none
+
+/-- replay of one cut `(index, bias)` of the cut sequence on `rest`, as documented for `difference_with_cut_sequence`:
+the plane has outward normal `sign(index)·e_axis` and passes through `normal * bias`; the fragment is the piece of `rest` in its
+negative half-space, the other piece is the new `rest`. Computed with the model of `Aabb::canonical_split` (epsilon `0`),
+whose plane normal is `+e_axis` (so for a negative index the bias is negated and the two pieces are exchanged). -/
+def replayCut (rest : Aabb3 K) (c : Int × K) : Option (Aabb3 K × Aabb3 K) :=
+  letI := fieldNum K sq
+  match cutAxis c.1 with
+  | none => none
+  | some ax =>
+    if 0 < c.1 then
+      match rest.canonicalSplit ax c.2 0 with
+      | .pair l r => some (l, r)
+      | _ => none
+    else
+      match rest.canonicalSplit ax (-c.2) 0 with
+      | .pair l r => some (r, l)
+      | _ => none
+
+/-- replay of a whole cut sequence from `a`: the fragments in order and what is left -/
+def replayCuts (a : Aabb3 K) (cuts : List (Int × K)) : Option (List (Aabb3 K) × Aabb3 K) :=
+  cuts.foldl (fun acc c => acc.bind fun st => (replayCut sq st.2 c).map fun fr => (st.1 ++ [fr.1], fr.2)) (some ([], a))
+
+theorem cutAxis_pos (i : Fin 3) : cutAxis ((i.val : Int) + 1) = some i := by
+  rcases i with ⟨_ | _ | _ | n, hi⟩ <;> simp [cutAxis] <;> omega
+theorem cutAxis_neg (i : Fin 3) : cutAxis (-((i.val : Int) + 1)) = some i := by
+  rcases i with ⟨_ | _ | _ | n, hi⟩ <;> simp [cutAxis] <;> omega
+
+theorem replayCut_min (rest : Aabb3 K) (i : Fin 3) (c : K) (h1 : rest.mins.get i.val < c) (h2 : c < rest.maxs.get i.val) :
+    replayCut sq rest ((i.val : Int) + 1, c) = some (⟨rest.mins, rest.maxs.set i.val c⟩, ⟨rest.mins.set i.val c, rest.maxs⟩) := by
+  have hpos : (0 : Int) < (i.val : Int) + 1 := by omega
+  simp only [replayCut, cutAxis_pos, hpos, if_true, Aabb3.canonicalSplit, sub_zero, add_zero]
+  rw [if_neg (not_le.mpr h1), if_neg (not_le.mpr h2)]
+
+theorem replayCut_max (rest : Aabb3 K) (i : Fin 3) (c : K) (h1 : rest.mins.get i.val < c) (h2 : c < rest.maxs.get i.val) :
+    replayCut sq rest (-((i.val : Int) + 1), -c) = some (⟨rest.mins.set i.val c, rest.maxs⟩, ⟨rest.mins, rest.maxs.set i.val c⟩) := by
+  have hneg : ¬ ((0 : Int) < -((i.val : Int) + 1)) := by omega
+  simp only [replayCut, cutAxis_neg, hneg, if_false, Aabb3.canonicalSplit, sub_zero, add_zero, neg_neg]
+  rw [if_neg (not_le.mpr h1), if_neg (not_le.mpr h2)]
+
+theorem replayCuts_snoc (a : Aabb3 K) (cuts : List (Int × K)) (c : Int × K) (ps : List (Aabb3 K)) (r f r' : Aabb3 K)
+    (h : replayCuts sq a cuts = some (ps, r)) (hc : replayCut sq r c = some (f, r')) :
+    replayCuts sq a (cuts ++ [c]) = some (ps ++ [f], r') := by
+  simp only [replayCuts] at h ⊢
+  rw [List.foldl_append, h]
+  simp [hc]
+
+
+theorem diffStep_replay (a rhs : Aabb3 K) (st : Aabb3.DiffState K) (i : Fin 3)
+    (hrep : replayCuts sq a st.cuts = some (st.pieces, st.rest))
+    (H1 : st.rest.mins.get i.val < rhs.maxs.get i.val) (H2 : rhs.mins.get i.val < st.rest.maxs.get i.val)
+    (H3 : rhs.mins.get i.val < rhs.maxs.get i.val) :
+    letI := fieldNum K sq
+    replayCuts sq a (Aabb3.diffStep rhs st i).cuts = some ((Aabb3.diffStep rhs st i).pieces, (Aabb3.diffStep rhs st i).rest) := by
+  letI : Num K := fieldNum K sq
+  simp only [Aabb3.diffStep]
+  by_cases c1 : st.rest.mins.get i.val < rhs.mins.get i.val
+  · simp only [c1, if_true]
+    have r1 := replayCuts_snoc sq a st.cuts _ st.pieces st.rest _ _ hrep (replayCut_min sq st.rest i _ c1 H2)
+    by_cases c2 : rhs.maxs.get i.val < st.rest.maxs.get i.val
+    · simp only [c2, if_true]
+      refine replayCuts_snoc sq a _ _ _ _ _ _ r1 ?_
+      refine replayCut_max sq _ i _ ?_ c2
+      simp only [get_set, if_true]; exact H3
+    · simp only [c2, if_false]; exact r1
+  · simp only [c1, if_false]
+    by_cases c2 : rhs.maxs.get i.val < st.rest.maxs.get i.val
+    · simp only [c2, if_true]
+      exact replayCuts_snoc sq a _ _ _ _ _ _ hrep (replayCut_max sq _ i _ H1 c2)
+    · simp only [c2, if_false]; exact hrep
+
+
+end replay
+
 end C17
